@@ -14,11 +14,15 @@ def run_mesh(prop, n, seed, lo, hi, max_n, oracles, timeout=1700):
         elif l.startswith('('): lines.append(l)
     cases = [mathprop.parse_case(l) for l in lines]
     modelled = [(l, c) for l, c in zip(lines, cases) if c[0] in MODELLED]
-    verd = vlib.run_shards(prop, MESH_IMPORTS, 'mcase', 'mverdict', [l for l, _ in modelled], per_shard=max(10, len(modelled) // 16 + 1), timeout=timeout)
+    verd = vlib.run_shards(prop, MESH_IMPORTS, 'mcase', 'mverdict2', [l for l, _ in modelled], per_shard=max(10, len(modelled) // 16 + 1), timeout=timeout)
     failures = []; inexact = 0
     for (l, c), v in zip(modelled, verd):
         if v[0] == 1: inexact += 1
-        if v[0] >= 2:
+        if v[0] >= 2 and len(v) > 1 and v[1] >= 2 and prop == 'C05':
+            # C05 is about where the points are: the Coq model is proved to put every ring at its documented place, so points that differ from it are misplaced
+            failures.append({'clause': 'ring_points_where_documented', 'key': 'ringpts%d' % c[0], 'builder': NAMES.get(c[0]), 'args': c[1][:60],
+                             'what': 'the points differ (beyond 1e-9) from the model whose ring placement is proved (C05 theorems)', 'case_term': l[:4000]})
+        elif v[0] >= 2:
             failures.append({'clause': 'model_vs_impl_mesh', 'key': 'meshmodel%d' % c[0], 'builder': NAMES.get(c[0]), 'args': c[1][:60],
                              'verdict': mathprop.VERDICT_TEXT.get(v[0], v[0]), 'case_term': l[:4000]})
     by_op = {}
